@@ -577,11 +577,46 @@ theorem tryJoin_spec {a : Arena} {l r m : Slice} (h : tryJoin a l r = some m) :
 def ExtOk (exts : List (List UInt8)) (s : Slice) : Prop :=
   ∀ b, s.region = .ext b → b < exts.length ∧ s.off + s.len ≤ (exts.getD b []).length
 
+/-- The front anchor, if any, still counts a slice: anchors whose slices are all consumed
+(and zero-count anchors from `push_anchor`) do not linger at the front. -/
+def HeadPos (as : List Anchor) : Prop := ∀ a, as.head? = some a → 0 < a.count
+
+theorem headPos_nil : HeadPos [] := by intro a h; simp at h
+
+theorem HeadPos.append {as : List Anchor} (h : HeadPos as) (hne : as ≠ []) (bs : List Anchor) :
+    HeadPos (as ++ bs) := by
+  intro a ha
+  cases as with
+  | nil => exact absurd rfl hne
+  | cons x xs => exact h a (by simpa using ha)
+
+theorem HeadPos.snoc_pos {as : List Anchor} (h : HeadPos as) {a : Anchor} (ha : 0 < a.count) :
+    HeadPos (as ++ [a]) := by
+  cases as with
+  | nil => intro b hb; simp at hb; subst hb; exact ha
+  | cons x xs => exact h.append (by simp) _
+
+theorem HeadPos.set_last {ys : List Anchor} {a a' : Anchor} (h : HeadPos (ys ++ [a])) (ha : 0 < a'.count) :
+    HeadPos (ys ++ [a']) := by
+  cases ys with
+  | nil => intro b hb; simp at hb; subst hb; exact ha
+  | cons x xs => intro b hb; exact h b (by simpa using hb)
+
+theorem headPos_dropZero (as : List Anchor) : HeadPos (dropZeroAnchors as) := by
+  induction as with
+  | nil => simpa [dropZeroAnchors] using headPos_nil
+  | cons a rest ih =>
+    unfold dropZeroAnchors
+    split
+    · exact ih
+    · rename_i h0; intro b hb; simp at hb; subst hb; omega
+
 structure IovOk (next : Nat) (exts : List (List UInt8)) (v : Iov) : Prop where
   guard : Guarded v.anchors v.slices
   anchorsLt : ∀ k ∈ anchorChunks v.anchors, k < next
   cacheLt : ∀ c, v.arena.cache = some c → c.chunk < next
   extOk : ∀ s ∈ v.slices, ExtOk exts s
+  headPos : HeadPos v.anchors
 
 theorem ExtOk.mono {exts t : List (List UInt8)} {s : Slice} (h : ExtOk exts s) : ExtOk (exts ++ t) s := by
   intro b hb
@@ -593,15 +628,15 @@ theorem ExtOk.mono {exts t : List (List UInt8)} {s : Slice} (h : ExtOk exts s) :
 theorem IovOk.mono {n n' : Nat} {e t : List (List UInt8)} {v : Iov} (h : IovOk n e v) (hn : n ≤ n') :
     IovOk n' (e ++ t) v :=
   ⟨h.guard, fun k hk => Nat.lt_of_lt_of_le (h.anchorsLt k hk) hn,
-   fun c hc => Nat.lt_of_lt_of_le (h.cacheLt c hc) hn, fun s hs => (h.extOk s hs).mono⟩
+   fun c hc => Nat.lt_of_lt_of_le (h.cacheLt c hc) hn, fun s hs => (h.extOk s hs).mono, h.headPos⟩
 
 theorem iovOk_empty (n : Nat) (e : List (List UInt8)) : IovOk n e Iov.empty :=
-  ⟨guarded_nil.2 rfl, by simp [anchorChunks, Iov.empty], by simp [Iov.empty], by simp [Iov.empty]⟩
+  ⟨guarded_nil.2 rfl, by simp [anchorChunks, Iov.empty], by simp [Iov.empty], by simp [Iov.empty], headPos_nil⟩
 
 /-- Changing only the arena (and bookkeeping that the guard does not read). -/
 theorem IovOk.with_arena {n : Nat} {e : List (List UInt8)} {v : Iov} (h : IovOk n e v) (a : Arena)
     (ha : ∀ c, a.cache = some c → c.chunk < n) : IovOk n e { v with arena := a } :=
-  ⟨h.guard, h.anchorsLt, ha, h.extOk⟩
+  ⟨h.guard, h.anchorsLt, ha, h.extOk, h.headPos⟩
 
 /-! ### `optimize` -/
 
@@ -636,12 +671,24 @@ theorem optimize_ext {v v' : Iov} (h : v.optimize = some v') :
     · rw [hss]; simp [hs]
     · rw [hm, hl] at hb; simp at hb
 
+theorem optimize_headPos {v v' : Iov} (hp : HeadPos v.anchors) (h : v.optimize = some v') : HeadPos v'.anchors := by
+  rcases optimize_spec h with rfl | ⟨ss, l, r, as, a, m, hss, has, ha, hj, rfl⟩
+  · exact hp
+  · rw [has] at hp
+    exact hp.set_last (by simp; omega)
+
+theorem optimize_anchors_ne_nil {v v' : Iov} (hp : v.anchors ≠ []) (h : v.optimize = some v') : v'.anchors ≠ [] := by
+  rcases optimize_spec h with rfl | ⟨ss, l, r, as, a, m, hss, has, ha, hj, rfl⟩
+  · exact hp
+  · simp
+
 theorem IovOk.optimize {n : Nat} {e : List (List UInt8)} {v v' : Iov} (hv : IovOk n e v)
     (h : v.optimize = some v') : IovOk n e v' :=
   ⟨by simpa using optimize_guard [] (by intro z hz; simp at hz) (by simpa using hv.guard) h,
    by rw [optimize_chunks h]; exact hv.anchorsLt,
    by rw [optimize_arena h]; exact hv.cacheLt,
-   fun s hs b hb => hv.extOk s (optimize_ext h s hs b hb) b hb⟩
+   fun s hs b hb => hv.extOk s (optimize_ext h s hs b hb) b hb,
+   optimize_headPos hv.headPos h⟩
 
 /-! ### `push_borrowed` -/
 
@@ -683,6 +730,15 @@ theorem pushBorrowedSlice_guard {v v' : Iov} {s : Slice} (zs : List Anchor) (hz 
     exact h0.snoc_inc hz s hl hs'
   · rw [hsnoc, List.append_assoc] at hg
     exact hg.snoc_inc hz s hl hs'
+
+theorem pushBorrowedSlice_headPos {v v' : Iov} {s : Slice} (hp : HeadPos v.anchors)
+    (h : v.pushBorrowedSlice s = some v') : HeadPos v'.anchors ∧ v'.anchors ≠ [] := by
+  obtain ⟨hl, as, a, hcase, ho⟩ := pushBorrowedSlice_spec h
+  refine ⟨optimize_headPos ?_ ho, optimize_anchors_ne_nil (by simp) ho⟩
+  rcases hcase with ⟨hnil, rfl, rfl⟩ | hsnoc
+  · intro b hb; simp at hb; subst hb; simp
+  · rw [hsnoc] at hp
+    exact hp.set_last (by simp)
 
 theorem pushBorrowedSlice_chunks {v v' : Iov} {s : Slice} (h : v.pushBorrowedSlice s = some v') :
     anchorChunks v'.anchors = anchorChunks v.anchors := by
@@ -727,7 +783,7 @@ theorem consumeSlices_spec {v v' : Iov} {count k : Nat} (h : v.consumeSlices cou
 theorem IovOk.consumeSlices {n : Nat} {e : List (List UInt8)} {v v' : Iov} {count k : Nat}
     (hv : IovOk n e v) (h : v.consumeSlices count = some (v', k)) : IovOk n e v' := by
   obtain ⟨hk, as1, hd, rfl⟩ := consumeSlices_spec h
-  refine ⟨?_, ?_, hv.cacheLt, ?_⟩
+  refine ⟨?_, ?_, hv.cacheLt, ?_, headPos_dropZero _⟩
   · exact (hv.guard.drain _ k (by omega) hd).dropZero
   · intro c hc
     exact hv.anchorsLt c (anchorChunks_drain _ k hd c (anchorChunks_dropZero c hc))
@@ -768,7 +824,7 @@ theorem IovOk.consumeBytes {n : Nat} {e : List (List UInt8)} {v v' : Iov} {fuel 
     (hv : IovOk n e v) (h : Iov.consumeBytes fuel v count consumed = some (v', c)) : IovOk n e v' := by
   refine consumeBytes_preserves (IovOk n e) (fun v v' k hp hc => hp.consumeSlices hc) ?_ fuel v count consumed v' c hv h
   intro v s rest m hp hs hm
-  refine ⟨?_, hp.anchorsLt, hp.cacheLt, ?_⟩
+  refine ⟨?_, hp.anchorsLt, hp.cacheLt, ?_, hp.headPos⟩
   · have := hp.guard
     rw [hs] at this
     exact this.shrink_head rfl (by simp; omega)
@@ -810,6 +866,11 @@ theorem copyAnchors_cases (as : List Anchor) (chunk : Nat) :
 
 theorem copyAnchors_ne_nil (as : List Anchor) (chunk : Nat) : copyAnchors as chunk ≠ [] := by
   rcases copyAnchors_cases as chunk with ⟨ys, a, _, _, h⟩ | ⟨_, h⟩ <;> rw [h] <;> simp
+
+theorem copyAnchors_headPos {as : List Anchor} (hp : HeadPos as) (chunk : Nat) : HeadPos (copyAnchors as chunk) := by
+  rcases copyAnchors_cases as chunk with ⟨ys, a, has, hc, h⟩ | ⟨_, h⟩
+  · rw [h]; rw [has] at hp; exact hp.set_last (by simp)
+  · rw [h]; exact hp.snoc_pos (by simp)
 
 theorem pushCopy_spec {w w' : World} {i : Nat} {src : List UInt8} (h : w.pushCopy i src = some w') :
     ∃ v, w.iov i = some v ∧ ((src = [] ∧ w' = w) ∨
@@ -1162,7 +1223,7 @@ theorem WorldInv.pushCopy {w w' : World} {i : Nat} {src : List UInt8} (hw : Worl
       simp at hj; subst hj
       refine IovOk.optimize ?_ ho
       have hlen : 0 < src.length := by cases src <;> simp_all
-      refine ⟨copyAnchors_guard hvok.guard _ _ _ hlen, ?_, hao, ?_⟩
+      refine ⟨copyAnchors_guard hvok.guard _ _ _ hlen, ?_, hao, ?_, copyAnchors_headPos hvok.headPos _⟩
       · intro k hk
         rcases copyAnchors_chunks _ _ k hk with hk | rfl
         · exact Nat.lt_of_lt_of_le (hvok.anchorsLt k hk) hn
@@ -1181,7 +1242,8 @@ theorem IovOk.pushBorrowedSlice {n : Nat} {e : List (List UInt8)} {v v' : Iov} {
     (hc : ∀ k, s.region = .chunk k → c = some k) (hcn : ∀ k, c = some k → k < n) :
     IovOk n e { v' with anchors := v'.anchors ++ [⟨0, c⟩] } := by
   have hz : AllZero [(⟨0, c⟩ : Anchor)] := by intro z hz; simp at hz; subst hz; rfl
-  refine ⟨?_, ?_, ?_, ?_⟩
+  have hhp := pushBorrowedSlice_headPos hv.headPos h
+  refine ⟨?_, ?_, ?_, ?_, hhp.1.append hhp.2 _⟩
   · refine pushBorrowedSlice_guard _ hz (hv.guard.snoc_anchor c) h ?_
     intro k hk
     rw [mem_anchorChunks]; exact ⟨_, List.mem_singleton.2 rfl, hc k hk⟩
@@ -1198,7 +1260,7 @@ theorem IovOk.pushBorrowedSlice {n : Nat} {e : List (List UInt8)} {v v' : Iov} {
 
 theorem IovOk.pushBorrowedSlice_noChunk {n : Nat} {e : List (List UInt8)} {v v' : Iov} {s : Slice} (hv : IovOk n e v)
     (h : v.pushBorrowedSlice s = some v') (hs : ExtOk e s) (hc : ∀ k, s.region ≠ .chunk k) : IovOk n e v' := by
-  refine ⟨?_, ?_, ?_, ?_⟩
+  refine ⟨?_, ?_, ?_, ?_, (pushBorrowedSlice_headPos hv.headPos h).1⟩
   · have := pushBorrowedSlice_guard [] (by intro z hz; simp at hz) (by simpa using hv.guard) h
       (by intro k hk; exact absurd hk (hc k))
     simpa using this
@@ -1351,7 +1413,7 @@ theorem WorldInv.with_brefs {w : World} (hw : WorldInv w) (b : List Backref) : W
 
 theorem IovOk.with_backrefs {n : Nat} {e : List (List UInt8)} {v : Iov} (h : IovOk n e v)
     (b : List (Nat × BackrefInfo)) : IovOk n e { v with backrefs := b } :=
-  ⟨h.guard, h.anchorsLt, h.cacheLt, h.extOk⟩
+  ⟨h.guard, h.anchorsLt, h.cacheLt, h.extOk, h.headPos⟩
 
 
 theorem release_ok {n : Nat} {a : Arena} (ha : ArenaOk n a) (k : Nat) : ArenaOk n (release a k) := by
@@ -1424,7 +1486,17 @@ theorem WorldInv.newFromSlices {w : World} {slices : List Slice} {a : Arena} (hw
     WorldInv (w.newFromSlices slices a).1 := by
   unfold World.newFromSlices
   refine hw.addIov ?_
-  refine ⟨?_, ?_, ha, ?_⟩
+  refine ⟨?_, ?_, ha, ?_, ?_⟩
+  rotate_right
+  · simp only
+    split
+    · exact headPos_nil
+    · rename_i he
+      intro b hb; simp at hb; subst hb
+      simp only
+      cases hf : List.filter (fun s => decide (s.len > 0)) slices with
+      | nil => simp [hf] at he
+      | cons x xs => simp
   · simp only
     split
     · rename_i he
@@ -1444,6 +1516,17 @@ theorem WorldInv.newFromSlices {w : World} {slices : List Slice} {a : Arena} (hw
   · intro s hs'
     simp only at hs'
     exact (hs s (List.mem_filter.1 hs').1).2
+
+theorem Heap.read_length (h : Heap) (k off len : Nat) : (h.read k off len).length = len := by
+  simp [Heap.read]; omega
+
+theorem pushCopy_anchors_ne_nil {w w' : World} {i : Nat} {src : List UInt8} (h : w.pushCopy i src = some w')
+    (hne : src ≠ []) : ∀ v', w'.iov i = some v' → v'.anchors ≠ [] := by
+  obtain ⟨v, hv, ⟨he, _⟩ | ⟨_, arena', next', chunk, off, v2, hal, ho, rfl⟩⟩ := pushCopy_spec h
+  · exact absurd he hne
+  · intro v' hv'
+    simp at hv'; subst hv'
+    exact optimize_anchors_ne_nil (copyAnchors_ne_nil _ _) ho
 
 theorem ASliceOk.with_slice {n : Nat} {s : ASlice} (h : ASliceOk n s) (sl : Slice) (hr : sl.region = s.slice.region)
     (hl : sl.len ≤ s.slice.len) : ASliceOk n { s with slice := sl } :=
@@ -1554,7 +1637,16 @@ theorem WorldInv.step {w w' : World} {op : Op} (hw : WorldInv w) (h : w.step op 
               refine h1.setIov ?_
               intro x hx; cases hx
               have hv1ok := h1.iovOk i v1 hv1
-              refine ⟨hv1ok.guard.snoc_anchor _, ?_, hv1ok.cacheLt, hv1ok.extOk⟩
+              have hne : v1.anchors ≠ [] := by
+                refine pushCopy_anchors_ne_nil hp ?_ v1 hv1
+                intro he
+                have hlen0 := congrArg List.length he
+                cases hreg : a.slice.region with
+                | ext b => exact hlen (haok.extEmpty b hreg)
+                | chunk k =>
+                  simp only [World.sliceBytes, hreg, Heap.read_length, List.length_nil] at hlen0
+                  exact hlen hlen0
+              refine ⟨hv1ok.guard.snoc_anchor _, ?_, hv1ok.cacheLt, hv1ok.extOk, hv1ok.headPos.append hne _⟩
               intro k hk
               simp only [anchorChunks_append, List.mem_append] at hk
               rcases hk with hk | hk
@@ -1983,5 +2075,96 @@ theorem WorldInv.aslice_live {w : World} (hw : WorldInv w) {j : Nat} {a : ASlice
     unfold Live
     rw [hr]
     exact mem_liveChunks.2 ⟨hok.chunkLt k hk, Or.inr (Or.inr ⟨j, a, ha, hk⟩)⟩
+
+/-! ### Anchors are released from the front (C10) -/
+
+theorem drain_suffix : ∀ (fuel : Nat) {as : List Anchor} (n : Nat) {as' : List Anchor},
+    drainAnchors fuel as n = some as' →
+    ∃ gone : List Anchor, countSum gone ≤ n ∧ as.map (·.chunk) = gone.map (·.chunk) ++ as'.map (·.chunk)
+  | fuel, as, 0, as', hd => by
+    rw [drainAnchors_zero] at hd; simp at hd; subst hd; exact ⟨[], by simp, by simp⟩
+  | 0, as, n + 1, as', hd => by simp [drainAnchors] at hd
+  | fuel + 1, [], n + 1, as', hd => by simp [drainAnchors] at hd
+  | fuel + 1, a :: rest, n + 1, as', hd => by
+    rw [drainAnchors_cons] at hd
+    split at hd
+    · rename_i hle
+      obtain ⟨gone, hg, he⟩ := drain_suffix fuel _ hd
+      exact ⟨a :: gone, by simp; omega, by simp [he]⟩
+    · simp at hd; subst hd
+      exact ⟨[], by simp, by simp⟩
+
+theorem dropZero_suffix (as : List Anchor) : ∃ gone, AllZero gone ∧ as = gone ++ dropZeroAnchors as := by
+  induction as with
+  | nil => exact ⟨[], by intro z hz; simp at hz, by simp [dropZeroAnchors]⟩
+  | cons a rest ih =>
+    unfold dropZeroAnchors
+    split
+    · rename_i h0
+      obtain ⟨gone, hz, he⟩ := ih
+      refine ⟨a :: gone, ?_, by rw [List.cons_append, ← he]⟩
+      intro z hz'; simp at hz'; rcases hz' with rfl | hz'
+      · exact h0
+      · exact hz z hz'
+    · exact ⟨[], by intro z hz; simp at hz, by simp⟩
+
+theorem anchors_nil_of_no_slices {as : List Anchor} (hg : Guarded as []) (hp : HeadPos as) : as = [] := by
+  cases as with
+  | nil => rfl
+  | cons a rest =>
+    obtain ⟨h1, _, _⟩ := guarded_cons.1 hg
+    have := hp a (by simp)
+    simp at h1; omega
+
+/-- `GlobalDeque::consume`: the anchors that remain are a suffix of the old deque (anchors leave only
+from the front; those that left counted only consumed slices), the new front anchor still counts
+an unconsumed slice, and if every slice was consumed no anchor is left at all. -/
+theorem consumeSlices_anchors {n : Nat} {e : List (List UInt8)} {v v' : Iov} {count k : Nat}
+    (hv : IovOk n e v) (h : v.consumeSlices count = some (v', k)) :
+    (∃ gone : List Anchor, countSum gone ≤ k ∧
+      v.anchors.map (·.chunk) = gone.map (·.chunk) ++ v'.anchors.map (·.chunk)) ∧
+    HeadPos v'.anchors ∧ (k = v.slices.length → v'.anchors = [] ∧ v'.slices = []) := by
+  have hv' := hv.consumeSlices h
+  obtain ⟨hk, as1, hd, rfl⟩ := consumeSlices_spec h
+  refine ⟨?_, hv'.headPos, ?_⟩
+  · obtain ⟨g1, hg1, he1⟩ := drain_suffix _ k hd
+    obtain ⟨g2, hz2, he2⟩ := dropZero_suffix as1
+    refine ⟨g1 ++ g2, by rw [countSum_append, countSum_allZero hz2]; omega, ?_⟩
+    simp only
+    rw [he1]
+    conv => lhs; rw [he2]
+    simp
+  · intro hall
+    have hg := hv'.guard
+    simp only at hg ⊢
+    have hnil : List.drop k v.slices = [] := by rw [hall]; simp
+    rw [hnil] at hg
+    exact ⟨anchors_nil_of_no_slices hg hv'.headPos, hnil⟩
+
+/-! ### Dropping everything -/
+
+theorem liveChunks_nil_of_no_objects {w : World} (h1 : ∀ i, w.iov i = none) (h2 : ∀ j, w.arena j = none)
+    (h3 : ∀ j, w.aslice j = none) : w.liveChunks = [] := by
+  rw [List.eq_nil_iff_forall_not_mem]
+  intro k hk
+  obtain ⟨_, ⟨i, v, hv, _⟩ | ⟨j, a, ha, _⟩ | ⟨j, s, hs, _⟩⟩ := mem_liveChunks.1 hk
+  · rw [h1 i] at hv; cases hv
+  · rw [h2 j] at ha; cases ha
+  · rw [h3 j] at hs; cases hs
+
+theorem getD_map_none {α} (l : List (Option α)) (i : Nat) : (l.map (fun _ => (none : Option α))).getD i none = none := by
+  rw [List.getD_eq_getElem?_getD]
+  cases h : (l.map (fun _ => (none : Option α)))[i]? with
+  | none => rfl
+  | some x =>
+    rw [List.getElem?_map] at h
+    cases hl : l[i]? with
+    | none => simp [hl] at h
+    | some y => simp [hl] at h; subst h; rfl
+
+theorem dropAll_liveChunks (w : World) : w.dropAll.liveChunks = [] :=
+  liveChunks_nil_of_no_objects (fun i => getD_map_none w.iovs i) (fun j => getD_map_none w.arenas j)
+    (fun j => getD_map_none w.aslices j)
+
 
 end Woodpile.Iovec
